@@ -484,7 +484,8 @@ Lemma next_element_S f pj o :
           let t2 := word_tag v2 in
           let esize := calc_next false off3 cur t2 in
           let add := calc_next true off3 cur t2 in
-          if c_len o <? off3 + esize then Err
+          if esize <? 0 then Err
+          else if c_len o <? off3 + esize then Err
           else if off3 + esize <? 0 then Crash
           else
             Ok ({| c_len := c_len o; c_off := off3 + esize |},
@@ -549,6 +550,7 @@ Proof.
     set (a := calc_next false off3 (word_val v2) (word_tag v2)).
     pose proof (calc_next_true off3 (word_val v2) (word_tag v2)) as Hb.
     pose proof (calc_next_false off3 (word_val v2) (word_tag v2)) as Ha. fold a in Ha.
+    destruct (a <? 0) eqn:Ea; [exact I|].
     destruct (c_len o <? off3 + a) eqn:E3; [exact I|].
     assert (Hnn : 0 <= off3 + a) by (destruct Ha as [Ha|[Ha|[_ Ha]]]; lia).
     replace (off3 + a <? 0) with false by lia.
